@@ -189,7 +189,8 @@ CLAIMED["C10"] = {
             "registered in a scope only when the caller asked for it and only after the function's own scope was pushed (a signature read ahead of time "
             "must not shadow outer names); (6) the outward scope walk that answers `did this name exist before` (has_name_been_mapped_in_function) is cut "
             "short only by a predicate that is false on every block scope kind (IfBlock, ElseBlock, WhileLoop, NumberLoop), the predicate being evaluated "
-            "on each ScopeType variant. Does not decide the remaining scoping rules that say which bindings a lookup sees.",
+            "on each ScopeType variant; (7) a declaration is marked const exactly when its flags contain `const` (the is_const computation of Parser::assignment "
+            "evaluated for every flag word); (8) inside a method a class scope does not answer for a bare name (lookup evaluated on scripted scope stacks). Does not decide the remaining scoping rules that say which bindings a lookup sees.",
     "technique": "static analysis: instruction-literal/operand-type enumeration, conditional guarded-by with correlated-test pruning on rustc MIR, pass-through of the const flag",
     "design_ref": "DESIGN.md §5 C10",
 }
@@ -305,7 +306,7 @@ NOT_APPLICABLE = {
 }
 
 # no hook commits exist; the only commits made to /repo are unguarded "fix:" repairs of genuine defects (see known_findings.json)
-FIX_COMMITS = ["e2ae2a9", "cb2d1e0", "e7575e5", "7bc2f7d", "0af4d83", "e4a4c00", "58e025f", "686179e", "7296d9a", "fa4b68b", "379557f", "4b30646", "0420930", "3aba53e", "2f2a1a1", "40a185d", "926b1f7", "1bc1139", "80aa30b", "cb4346c", "34ccc50", "c46bbfb", "52e39f3", "113558c", "2f9df7c", "3049d27", "8c4d891", "b57e9f6", "06f5ab2", "b6686d7", "5bdb4bc", "21f2ccc", "f629b30", "fbc7074", "28b2626", "6155775", "1ab99d9", "cee19c4", "53a1bd0", "b6cca17", "c78cdc8", "9f6e522"]
+FIX_COMMITS = ["e2ae2a9", "cb2d1e0", "e7575e5", "7bc2f7d", "0af4d83", "e4a4c00", "58e025f", "686179e", "7296d9a", "fa4b68b", "379557f", "4b30646", "0420930", "3aba53e", "2f2a1a1", "40a185d", "926b1f7", "1bc1139", "80aa30b", "cb4346c", "34ccc50", "c46bbfb", "52e39f3", "113558c", "2f9df7c", "3049d27", "8c4d891", "b57e9f6", "06f5ab2", "b6686d7", "5bdb4bc", "21f2ccc", "f629b30", "fbc7074", "28b2626", "6155775", "1ab99d9", "cee19c4", "53a1bd0", "b6cca17", "c78cdc8", "9f6e522", "c0bdc04"]
 
 PENDING = "check not built yet in this round (framework under construction); planned per DESIGN.md §5/§8"
 
